@@ -73,17 +73,17 @@ Proof. unfold init_dup. apply (init_kvpairs_wf fs _ (WfD_empty 0)). Qed.
 
 (** * sort_fields *)
 
-Theorem pd_sort_refines d :
+Theorem pd_sort_refines sk d :
   WfD d ->
-  In (false, map snd (d_order (d_sort d))) (sp_cands PSort (map snd (d_order d)))
-  /\ WfD (d_sort d).
+  In (false, map snd (d_order (d_sort sk d))) (sp_cands (PSort sk) (map snd (d_order d)))
+  /\ WfD (d_sort sk d).
 Proof.
   intros Hwf. unfold d_sort.
-  destruct (init_kvpairs_wf (sort_by sort_key (map snd (d_ensure_nl (d_order d))))
+  destruct (init_kvpairs_wf (sort_fields_by sk (map snd (d_ensure_nl (d_order d))))
                             _ (WfD_empty (d_next d))) as [H1 H2].
   split; [|exact H1].
   rewrite H2. cbn [d_order map app]. rewrite map_snd_ensure_nl.
-  eapply accept_in with (pl := PlSort) (neg := false); [reflexivity|]. left. reflexivity.
+  eapply accept_in with (pl := PlSort sk) (neg := false); [reflexivity|]. left. reflexivity.
 Qed.
 
 (** * Removing nodes *)
